@@ -467,6 +467,7 @@ func cmdCheck(args []string) int {
 	}
 	if len(crossCases) > 0 {
 		results := runNative(*repo, *verif, crossCases, false)
+		escalated := map[string]bool{}
 		for i, p := range crossExpect {
 			if i >= len(results) || results[i] == nil {
 				continue
@@ -476,6 +477,19 @@ func cmdCheck(args []string) int {
 				rep.NativeAgree++
 			} else {
 				rep.NativeDiffs = append(rep.NativeDiffs, crossCases[i].Harness+" "+fmt.Sprint(p.Decisions)+": "+d)
+				// the real code fails on a concrete input of a path the symbolic run considered
+				// passing: if it fails the same way when run again, that is a confirmed violation
+				if strings.HasPrefix(d, "native assertion failed: ") || strings.HasPrefix(d, "native panic: ") {
+					key := crossCases[i].Harness + ":native:" + strings.TrimPrefix(strings.TrimPrefix(d, "native assertion failed: "), "native panic: ")
+					if !escalated[key] {
+						again := runNative(*repo, *verif, []nativeCase{crossCases[i]}, false)
+						if len(again) == 1 && again[0] != nil && nativeAgrees(p, again[0]) == d {
+							escalated[key] = true
+							rep.Violations = append(rep.Violations, &ViolationReport{Key: key, Harness: crossCases[i].Harness, Model: crossCases[i].Values, Events: p.Events, Decisions: p.Decisions,
+								Confirmed: "native", Detail: d + " (twice, on a concrete input of a path the symbolic run considered passing)"})
+						}
+					}
+				}
 				if os.Getenv("GOSYM_DEBUG") != "" {
 					b, _ := json.MarshalIndent(map[string]interface{}{"diff": d, "values": crossCases[i].Values, "native": results[i], "events": p.Events, "reached": p.Reached}, "", " ")
 					os.WriteFile(filepath.Join(*verif, "build", "tmp", fmt.Sprintf("mismatch_%d.json", i)), b, 0o644)
